@@ -63,6 +63,14 @@ theorem inv_resumeRequest {d : Daemon} (h : Inv d) (i : Id) : Inv (resumeRequest
     | exact h1.connsS | exact h1.suspS | exact h1.newT | exact h1.disjNew | exact h1.disjClean | exact h1.laLe
     | exact h1.usedAll | exact h1.ready | exact h1.nonEpoll | exact h1.sorted | exact h1.tmoB | exact h1.dtmoB
 
+theorem inv_params {d : Daemon} (h : Inv d) (ws fs : List Id) : Inv { d with wset := ws, fset := fs } := by
+  constructor
+  all_goals first
+    | exact h.nofault | exact h.ndConns | exact h.ndNormal | exact h.ndManual | exact h.ndSusp
+    | exact h.ndNew | exact h.ndClean | exact h.ndEready | exact h.connsIff | exact h.normalT | exact h.manualT
+    | exact h.connsS | exact h.suspS | exact h.newT | exact h.disjNew | exact h.disjClean | exact h.laLe
+    | exact h.usedAll | exact h.ready | exact h.nonEpoll | exact h.sorted | exact h.tmoB | exact h.dtmoB
+
 theorem inv_step {v : Variant} (hv : Fixed v) {d : Daemon} (h : Inv d) (o : Op)
     (r : Daemon × List Event) (hr : step v d o = some r) : Inv r.1 := by
   cases o with
@@ -118,7 +126,18 @@ theorem inv_step {v : Variant} (hv : Fixed v) {d : Daemon} (h : Inv d) (o : Op)
     split at hr
     · cases hr; exact inv_resumeRequest h i
     · cases hr
-  | round => simp only [step] at hr; cases hr; exact inv_round hv h
+  | round => simp only [step] at hr; cases hr; exact inv_round hv (inv_params h [] [])
+  | roundw ws fs => simp only [step] at hr; cases hr; exact inv_round hv (inv_params h ws fs)
+  | allow i =>
+    simp only [step] at hr
+    split at hr
+    · cases hr; exact h
+    · cases hr
+  | get i e =>
+    simp only [step] at hr
+    split at hr
+    · cases hr; exact inv_clientData (inv_set_iness h i { (d.c i) with limited := true } rfl rfl rfl) i _ _
+    · cases hr
 
 theorem inv_run {v : Variant} (hv : Fixed v) : ∀ (ops : List Op) (d : Daemon), Inv d → Inv (run v d ops)
   | [], d, h => by simpa [run] using h
